@@ -10,6 +10,8 @@
 //	(f) text_test.go       corrupted Lisk32 / Hex text forms
 //	(g) lifecycle_test.go  object life cycles: one Transaction / BlockHeader / Block through Init, field changes, Copy,
 //	                       decoding into the used struct, Sign, store + cold load; ID == SHA-256(Encode()) after every recomputation
+//	(h) nested_test.go     one non-canonical element at any NESTING level of a block / gossip message / composite type, everything
+//	                       else canonical: NewBlock rejects, or IDs are the hashes of the accepted sub-bytes and Encode() == input
 package c08
 
 import (
